@@ -12,6 +12,8 @@
 (*   msgidx, sumoffs, crc  optional parts                                   *)
 (*   unknown  positions at which records with unknown opcodes are inserted  *)
 (*   pad      trailing bytes appended to every extensible record            *)
+(*   within   the order of the records inside every summary group: as in    *)
+(*            the data section, reversed, or rotated (not prescribed)       *)
 (* TLC enumerates (or samples) the layouts and exports them as JSON for the *)
 (* reference encoder; it also checks, on a model of the reader's summary    *)
 (* pass (as coded: single pass, topic pruning at the footer), that what the *)
@@ -53,19 +55,20 @@ OkData(dl) ==
 AllInChunks(dl) == \A i \in DOMAIN dl.parts : dl.parts[i].chunk \/ dl.parts[i].n = 0
 Indexed(l) == \E i \in DOMAIN l.summary : l.summary[i] = "ChunkIndex"
 
+Withins == {"asc", "rev", "rot"}
 OneData == [parts |-> <<[n |-> 1, comp |-> "", chunk |-> TRUE], [n |-> NMsgs - 1, comp |-> "zstd", chunk |-> TRUE]>>, defs |-> "upfront"]
 
 Layouts ==
   CASE Mode = "summary" ->
-        {[data |-> OneData, summary |-> s, msgidx |-> mi, sumoffs |-> so, crc |-> TRUE, unknown |-> {}, pad |-> 0] :
-           s \in {a \in Arrangements(Groups) : LegalSummary(a)}, mi \in BOOLEAN, so \in BOOLEAN}
+        {[data |-> OneData, summary |-> s, msgidx |-> mi, sumoffs |-> so, crc |-> TRUE, unknown |-> {}, pad |-> 0, within |-> wi] :
+           s \in {a \in Arrangements(Groups) : LegalSummary(a)}, mi \in BOOLEAN, so \in BOOLEAN, wi \in Withins}
     [] Mode = "data" ->
-        {l \in {[data |-> dl, summary |-> s, msgidx |-> TRUE, sumoffs |-> TRUE, crc |-> c, unknown |-> {}, pad |-> 0] :
+        {l \in {[data |-> dl, summary |-> s, msgidx |-> TRUE, sumoffs |-> TRUE, crc |-> c, unknown |-> {}, pad |-> 0, within |-> wi] :
                   dl \in {x \in DataLayouts : OkData(x)},
-                  s \in {CanonSummary, <<"ChunkIndex", "Channel", "Schema">>, <<"Channel", "Statistics", "Schema">>, <<>>}, c \in BOOLEAN}
+                  s \in {CanonSummary, <<"ChunkIndex", "Channel", "Schema">>, <<"Channel", "Statistics", "Schema">>, <<>>}, c \in BOOLEAN, wi \in {"asc", "rev"}}
            : Indexed(l) => AllInChunks(l.data)}
     [] Mode = "unknown" ->
-        {[data |-> OneData, summary |-> CanonSummary, msgidx |-> TRUE, sumoffs |-> TRUE, crc |-> TRUE, unknown |-> u, pad |-> p] :
+        {[data |-> OneData, summary |-> CanonSummary, msgidx |-> TRUE, sumoffs |-> TRUE, crc |-> TRUE, unknown |-> u, pad |-> p, within |-> "asc"] :
            u \in SUBSET {"top0", "top1", "top2", "inchunk0", "inchunk1", "inchunkend", "sum0", "sum1", "sumend", "afterchunk"}, p \in {0, 3}}
 
 (* ------------------------------------------------------------------------ *)
@@ -96,6 +99,17 @@ SummaryPassOld(l, topicSel) ==
           [] OTHER -> acc
   IN FoldLeft(step, [channels |-> {}, cidx |-> {}, stats |-> FALSE], l.summary)
 
+(* the chunk index records as the summary lists them (order `within`), and the order in which a file-order read visits
+   the chunks: as coded, the collected chunk indexes are sorted by chunk offset at the footer, so the order of the records
+   in the summary does not matter *)
+Listed(l) == LET n == NumChunks(l) IN
+  CASE l.within = "rev" -> [i \in 1 .. n |-> n + 1 - i]
+    [] l.within = "rot" -> [i \in 1 .. n |-> (i % n) + 1]
+    [] OTHER -> [i \in 1 .. n |-> i]
+FileOrderVisit(l, topicSel) == SortSeq(SelectSeq(Listed(l), LAMBDA c : c \in SummaryPass(l, topicSel).cidx), <)
+(* as it would be without that sort (what a reader that trusts the summary order does) *)
+FileOrderVisitUnsorted(l, topicSel) == SelectSeq(Listed(l), LAMBDA c : c \in SummaryPass(l, topicSel).cidx)
+
 SameGroups(a, b) == {a[i] : i \in DOMAIN a} = {b[i] : i \in DOMAIN b}
 
 VARIABLES lay, done
@@ -112,6 +126,11 @@ OrderIndependent ==
 (* the pre-fix pass is NOT order independent: kept as a regression witness (checked to be violated by ./check C12 --selftest) *)
 OldOrderIndependent ==
   \A sel \in {{}, {0}, {1}} : SummaryPassOld(lay, sel) = SummaryPassOld([lay EXCEPT !.summary = CanonOf(lay.summary)], sel)
+
+WithinIndependent ==
+  \A sel \in {{}, {0}, {1}} : FileOrderVisit(lay, sel) = FileOrderVisit([lay EXCEPT !.within = "asc"], sel)
+UnsortedWithinIndependent ==      \* violated: witness that the sort is what makes the read independent of the summary's record order
+  \A sel \in {{}, {0}, {1}} : FileOrderVisitUnsorted(lay, sel) = FileOrderVisitUnsorted([lay EXCEPT !.within = "asc"], sel)
 
 Export == done => PrintT(<<"LAYOUT", ToJson(lay)>>)
 ==========================================================================
